@@ -338,12 +338,18 @@ def check_case(case):
             if len(names) >= 2:
                 queries.append((ds.isel({names[-1]: 0}, drop=True),
                                 list(names[:-1])))
-            for qds, qnames in queries:
+            if case["ctype"] == "num":
+                # (the same labels written as floats: 3.0 names the label 3)
+                queries.append((ds, list(names), True))
+            for q in queries:
+                qds, qnames = q[0], q[1]
+                asfloat = len(q) > 2
                 qwant = [dict(zip(qnames, lab))
                          for lab in oracle(qds, qnames, method)]
                 try:
                     qres = parse_into_cases(
-                        combos={a: list(coords[a]) for a in qnames}, ds=qds,
+                        combos={a: [float(v) for v in coords[a]] if asfloat
+                                else list(coords[a]) for a in qnames}, ds=qds,
                         method=method)
                 except Exception as e:
                     vio.append((key("parse-raised:" + type(e).__name__),
